@@ -195,6 +195,30 @@ def run(tier, seed):
     for ob in obligations:
         if ob.get("verdict") == "violation":
             attach(ob)
+    # ---- S18.3 the stored restriction reaches the session (UserManager add / update -> stored record -> session group)
+    import os
+    from . import c18store
+    sob = c18store.run(tier, seed)
+    if not os.environ.get("VERIF_NO_NATIVE"):
+        from .common import native_histories
+        if sob.get("verdict") == "violation" and (sob.get("counterexample") or {}).get("steps"):
+            rr = native_histories("C18", "user", "violation", [{"steps": sob["counterexample"]["steps"]}], {"obligation": sob["harness"], "model": sob.get("counterexample")}, sob["message"])
+            sob["replay_path"] = rr["path"]
+            sob["replay"] = {"path": rr["path"], "outcome": rr["outcome"], "message": rr["message"]}
+            if rr["outcome"] != "reproduced":
+                sob.update({"verdict": "inconclusive", "message": "engine-S counterexample (%s) did not reproduce on a real node's UserManager (%s %s)" % (sob["message"], rr["outcome"], rr["message"])})
+            else:
+                sob["message"] = "%s [real single-node application, through the UserManager actor: %s]" % (sob["message"], rr["message"][:400])
+        elif sob.get("verdict") == "discharged":
+            sample = [{"steps": [["add", {"whitelist": ["a"], "blacklist": None, "whitelistIsAll": False, "blacklistIsAll": None}],
+                                 ["update", {"whitelist": [], "blacklist": ["b"], "whitelistIsAll": None, "blacklistIsAll": None}]]},
+                      {"steps": [["add", {"whitelist": None, "blacklist": ["b"], "whitelistIsAll": None, "blacklistIsAll": None}],
+                                 ["update", {"whitelist": ["a", "b"], "blacklist": [], "whitelistIsAll": False, "blacklistIsAll": False}]]}]
+            val = native_histories("C18", "user", "validate", sample, {"obligation": sob["harness"]})
+            info["translator_validation_user_manager"] = val
+            if val["outcome"] != "passed":
+                sob.update({"verdict": "inconclusive", "message": "the obligation is discharged but a real node's UserManager breaks it on a sampled history: %s" % val["message"]})
+    obligations.append(sob)
     info["wall_s"] = round(time.time() - t0, 1)
     return {"obligations": obligations, "info": info}
 
